@@ -241,6 +241,7 @@ class RefInterp(ObjInterp):
             return False if (a is False and b is False) else None
         if k == 'BinaryOperator' and e.get('opcode') in ('==', '!=', '<', '>', '<=', '>='):
             ks = tu.kids(e)
+            self.check_untyped(e, ks, st, fr)
             a = self.pval(ks[0], st, fr)
             b = self.pval(ks[1], st, fr)
             if a is None or b is None or 'undef' in (a, b):
@@ -278,6 +279,41 @@ class RefInterp(ObjInterp):
             if v in OBJS or (isinstance(v, tuple) and v[0] == 'addr'):
                 return True
         return None
+
+    def check_untyped(self, e, ks, st, fr):
+        """pointer members of handles with *different* pointee types must be compared after the language's pointer conversion to
+        a common type (implicit derived-to-base, static_cast to the base); going through void* / an integer / reinterpret_cast
+        drops the base-offset adjustment: with multiple inheritance two handles to one object compare unequal"""
+        tu = self.tu
+        info = []
+        for x in ks:
+            untyped = None
+            n = x
+            for _ in range(12):
+                if n is None:
+                    break
+                kk = n.get('kind')
+                if kk in ('CStyleCastExpr', 'CXXStaticCastExpr', 'CXXReinterpretCastExpr', 'CXXFunctionalCastExpr'):
+                    ct = (tu.sd(n).get('ct') or '').replace('const ', '').replace('volatile ', '').strip()
+                    if kk == 'CXXReinterpretCastExpr' or ct in ('void *', 'void*') or not is_ptr_ct(ct):
+                        untyped = '%s to `%s`' % ({'CXXReinterpretCastExpr': 'reinterpret_cast', 'CXXStaticCastExpr': 'static_cast'}.get(kk, 'cast'),
+                                                  tu.sd(n).get('ct'))
+                    n = tu.kids(n)[-1] if tu.kids(n) else None
+                elif kk in ('ImplicitCastExpr', 'ParenExpr', 'ExprWithCleanups', 'MaterializeTemporaryExpr'):
+                    n = tu.kids(n)[0] if tu.kids(n) else None
+                else:
+                    break
+            base = tu.strip(x, casts=True)
+            pointee = None
+            if self.is_field(base):
+                pointee = (tu.sd(base).get('ct') or '').replace('const', '').replace('*', '').strip()
+            info.append((untyped, pointee))
+        (ua, pa), (ub, pb) = info
+        if pa and pb and pa != pb and (ua or ub):
+            self.report('untyped-comparison', 'handles to different pointee types (%s, %s) are compared through a %s: the derived-to-base pointer '
+                        'adjustment is dropped, so with multiple inheritance (ref-counted base at a non-zero offset) two handles to the same '
+                        'object compare unequal; compare the typed pointers (a.ptr == b.ptr converts implicitly) instead'
+                        % (pa, pb, ua or ub), e, fr, st)
 
     @staticmethod
     def compare(op, a, b):
@@ -946,7 +982,8 @@ def post(role, f, env, d0, d, rv, handles):
 # ============================================================================================
 #  R-C08-2: the counter
 # ============================================================================================
-from rkstatic.x_atomics import ATOMIC_INT, PLAIN_INT, atomic_call, call_mo, cfg_paths, fence_mo, int_eval  # noqa: E402
+from rkstatic.x_atomics import (ATOMIC_INT, PLAIN_INT, WIDTH64, atomic_call, call_mo, cfg_paths, cfg_paths_unrolled, fence_mo,
+                                int_eval, loop_blocks)  # noqa: E402
 
 
 def check_counter(ctx, tu):
@@ -1000,6 +1037,18 @@ def check_counter(ctx, tu):
     inst = 'RefCountedObject::%s' % cnt['name']
     if ATOMIC_INT.match(cnt['ct']):
         ctx.ok(R2, inst + ' type', cnt['ct'], HDR)
+        # width: the number of references is not bounded by a small pool (explicit refInc() calls are not even bounded by
+        # memory); the contract of the pinned tree is a 64-bit count (long long, also the return type of useCount()).
+        # On the analysed target (x86-64, LP64) the 64-bit integer types are exactly the ones below, all 8-byte aligned.
+        n += 1
+        if WIDTH64.match(cnt['ct']) and cnt.get('talign', 8) >= 8:
+            ctx.ok(R2, inst + ' width', '%s: at least 64 value bits (alignment %s)' % (cnt['ct'], cnt.get('talign')), HDR)
+        else:
+            ctx.violation(R2, inst + ' width', 'the reference counter `%s` has fewer than 64 bits (alignment %s): after 2^31 outstanding '
+                          'references useCount() turns negative, after 2^32 the count wraps and one release destroys the object while '
+                          'references remain; the count must be able to represent every number of references a history can create '
+                          '(contract of the pinned tree: 64-bit long long)' % (cnt['ct'], cnt.get('talign')), HDR,
+                          key='%s|%s|RefCountedObject|counter-too-narrow' % (R2, file))
     elif PLAIN_INT.match(cnt['ct']) or cnt['ct'].startswith('volatile '):
         ctx.violation(R2, inst + ' type', 'the reference counter has type `%s`, not std::atomic<integral>: concurrent refInc/refDec lose '
                       'updates and two threads can both observe zero' % cnt['ct'], HDR,
@@ -1088,9 +1137,13 @@ def check_rmw_fn(ctx, tu, f, counter_ids, sign, file):
     name = f['q'].split('::')[-1]
     inst = 'RefCountedObject::%s' % name
     kbase = '%s|%s|RefCountedObject::%s|' % (R2, file, name)
-    if g.back_edges():
-        ctx.undecided(R2, inst, 'loop in %s (compare-exchange loops are not modelled)' % name, tu.fn_loc(f))
-        return 1
+    looped = bool(g.back_edges())
+    if looped:
+        lb = loop_blocks(g)
+        for b, i, x in g.stmts():
+            if b.id in lb and atomic_call(tu, x, counter_ids):
+                ctx.undecided(R2, inst, 'loop in %s that operates on the counter (compare-exchange loops are not modelled)' % name, tu.fn_loc(f))
+                return 1
     # local variables initialised once (const auto c = --counter;)
     assigned = set()
     for b, i, x in g.stmts():
@@ -1098,19 +1151,22 @@ def check_rmw_fn(ctx, tu, f, counter_ids, sign, file):
             lhs = tu.strip(tu.kids(x)[0])
             if lhs.get('kind') == 'DeclRefExpr':
                 assigned.add(lhs.get('referencedDecl', {}).get('id'))
-    paths = cfg_paths(g)
+    paths = cfg_paths_unrolled(g) if looped else cfg_paths(g)   # loops that do not touch the counter: body seen 0 and 1 times
     if not paths:
         ctx.undecided(R2, inst, 'no path through %s' % name, tu.fn_loc(f))
         return 1
     problems = []      # (kind, msg, loc)
     undec = []
     per_new = {v: [] for v in range(0, 4)}   # new value -> list of (deleted?) over feasible paths
+    parked = {}        # new value -> node where `this` is handed to somebody else on a path that returns without destroying
     for path in paths:
         rmw = []
         deletes = []
         loads = []
         seq = []          # ordering-relevant events in path order: ('fence', mo) ('rmw',) ('load', mo) ('delete',)
         wrote = False
+        parks = []        # calls / assignments that hand `this` to somebody else
+        und0 = len(undec)
         env_vars = {}     # var decl id -> init expr
         feas = set(range(0, 4))
         cond_seen_before_rmw = False
@@ -1151,6 +1207,13 @@ def check_rmw_fn(ctx, tu, f, counter_ids, sign, file):
                         seq.append(('delete',))
                     else:
                         undec.append('delete of something other than `this` at %s' % tu.loc(x))
+                if x.get('kind') in CALLS or x.get('kind') == 'CXXConstructExpr':
+                    s_, o_, args_ = tu.call_parts(x)
+                    if any((tu.strip(a_, casts=True) or {}).get('kind') == 'CXXThisExpr' for a_ in args_):
+                        parks.append(x)
+                if x.get('kind') == 'BinaryOperator' and x.get('opcode') == '=' and \
+                        (tu.strip(tu.kids(x)[1], casts=True) or {}).get('kind') == 'CXXThisExpr':
+                    parks.append(x)
                 if x.get('kind') == 'DeclStmt':
                     for v in tu.kids(x):
                         if v.get('kind') == 'VarDecl' and tu.kids(v) and v['id'] not in assigned:
@@ -1199,7 +1262,12 @@ def check_rmw_fn(ctx, tu, f, counter_ids, sign, file):
                             break
                         if bool(v) == (taken == 0):
                             ok_vals.add(new)
-                    if not known:
+                    depends = any(y.get('id') == x['id'] for y in tu.walk(c)) or any(
+                        y.get('kind') == 'DeclRefExpr' and y.get('referencedDecl', {}).get('id') in env_vars and
+                        any(z.get('id') == x['id'] for z in tu.walk(env_vars[y['referencedDecl']['id']])) for y in tu.walk(c))
+                    if not known and not depends:
+                        pass      # a condition that does not involve the result of the decrement: either edge may be taken
+                    elif not known:
                         undec.append('branch condition `%s` at %s is not a comparison of the RMW result with a constant' % (tu.show(c), tu.loc(c)))
                     else:
                         feas = ok_vals
@@ -1245,10 +1313,25 @@ def check_rmw_fn(ctx, tu, f, counter_ids, sign, file):
             problems.append(('double-delete', 'a path deletes the object twice', tu.loc(deletes[1])))
         for new in feas:
             per_new[new].append(bool(deletes))
+            if not deletes and parks and len(undec) == und0:
+                parked.setdefault(new, parks[0])
+    if sign < 0 and not problems and undec and 0 in parked:
+        # a fully understood path parks `this` and returns although the decrement produced 0 (other paths may be unrecognised)
+        pn = parked[0]
+        problems.append(('destroy-deferred', 'on a path where the decrement produced 0 (last reference released) refDec hands `this` to '
+                         '`%s` and returns without destroying the object: the destruction is deferred past the return of the operation '
+                         'that released the last reference (the object outlives its last reference; whoever drains that storage '
+                         'destroys it later)' % tu.show(pn), tu.loc(pn)))
     if sign < 0 and not problems and not undec:
         for new, ds in sorted(per_new.items()):
             if not ds:
                 undec.append('no feasible path for a decrement producing %d' % new)
+            elif new == 0 and not all(ds) and 0 in parked:
+                pn = parked[0]
+                problems.append(('destroy-deferred', 'on a path where the decrement produced 0 (last reference released) refDec hands `this` to '
+                                 '`%s` and returns without destroying the object: the destruction is deferred past the return of the operation '
+                                 'that released the last reference (the object outlives its last reference; whoever drains that storage '
+                                 'destroys it later)' % tu.show(pn), tu.loc(pn)))
             elif new == 0 and not all(ds):
                 problems.append(('delete-condition', 'when the decrement produces 0 (last reference released) a path does not destroy the '
                                  'object: it leaks / the condition tests the wrong value of the RMW', tu.fn_loc(f)))
@@ -1359,11 +1442,48 @@ def check_witness(ctx):
     ctx.floor(W2, n, len(compilers), 'one must-fail unit per compiler')
 
 
+def check_mixed_compare(ctx, tu, floor):
+    """R-C08-5: what overload resolution selects for `IntrusivePtr<T> ==/!= IntrusivePtr<U>` with T != U in the drivers"""
+    R5 = 'R-C08-5'
+    ctx.describe(R5, 'a comparison between handles of different pointee types resolves to a handle comparison function (whose body is '
+                     'decided by R-C08-3), never to the built-in comparison of two implicit operator bool() conversions')
+    fs = [f for f in tu.fns(q='rkverif::mixed_compare', dep=False) if tu.body(f) is not None]
+    if len(fs) != 1:
+        ctx.broken('R-C08-5: driver function rkverif::mixed_compare not found in %s' % tu.unit)
+        return
+    n = 0
+    for x in tu.walk(tu.body(fs[0])):
+        k = x.get('kind')
+        if k == 'CXXOperatorCallExpr' and re.match(r'rkcommon::memory::operator(==|!=|<|>|<=|>=)$', tu.sd(x).get('q', '')):
+            n += 1
+            cf = tu.callee_fn(x)
+            if cf is None or tu.cfg(cf) is None:
+                ctx.undecided(R5, '%s [%s]' % (tu.show(x), tu.unit), 'selected comparison function has no body to analyse', tu.loc(x))
+            else:
+                ctx.ok(R5, '%s [%s]' % (tu.show(x), tu.unit), 'resolves to %s %s (analysed by R-C08-3)' % (tu.sd(x).get('q'), cf['fty']), tu.loc(x))
+        elif k == 'BinaryOperator' and x.get('opcode') in ('==', '!=', '<', '>', '<=', '>='):
+            n += 1
+            convs = [y for y in tu.walk(x) if y.get('kind') == 'CXXMemberCallExpr' and tu.sd(y).get('rec') == IP
+                     and tu.sd(y).get('q', '').split('::')[-1] == 'operator bool']
+            if len(convs) >= 2:
+                types = [tu.sd(tu.call_parts(y)[1]).get('ct', '?').replace('const ', '').replace('rkcommon::memory::', '') for y in convs[:2]]
+                ctx.violation(R5, '%s [%s]' % (tu.show(x), tu.unit),
+                              '`%s` between %s and %s resolves to the built-in comparison of two implicit operator bool() conversions (no handle '
+                              'comparison accepts two different pointee types): any two non-empty handles of different static types compare '
+                              'equal although they point at different objects' % (x.get('opcode'), types[0], types[1]), tu.loc(x),
+                              key='%s|%s|operator==|mixed-type-through-bool' % (R5, HDR))
+            else:
+                ctx.undecided(R5, '%s [%s]' % (tu.show(x), tu.unit), 'built-in comparison selected for two handles in a form the analysis does '
+                              'not recognise', tu.loc(x))
+    ctx.floor(R5, n, floor, 'mixed-type comparisons in rkverif::mixed_compare of %s' % tu.unit)
+
+
 def analyse(ctx, tu, lib_tus, floors=True):
     seen = set()
     n1, n3 = check_effects(ctx, tu, seen)
     n2, counter_ids = check_counter(ctx, tu)
     n4 = check_coverage(ctx, tu, seen, counter_ids, lib_tus)
+    check_mixed_compare(ctx, tu, 8)
     if floors:
         ctx.floor('R-C08-1', n1, 90, 'members x pointee types x entry scenarios on the pinned tree')
         ctx.floor('R-C08-3', n3, 30, '3 comparison operators x 2 pointee types x entry scenarios')
@@ -1382,6 +1502,18 @@ def run(ctx):
     tus = ctx.front.parse_many(jobs)
     analyse(ctx, tus[0], tus[1:])
     check_witness(ctx)
+    # unrelated pointee types: rejected at compile time, or analysed like every other comparison
+    rc, err = ctx.front.compile_check('drivers/c08_unrelated.cpp')
+    if rc != 0:
+        if 'IntrusivePtr' in err and 'error' in err:
+            ctx.ok('R-C08-5', 'comparisons of handles to unrelated pointee types', 'rejected at compile time', HDR, nontrivial=False)
+        else:
+            ctx.broken('R-C08-5: drivers/c08_unrelated.cpp does not compile for an unexpected reason:\n%s' % err[-800:])
+    else:
+        tu_u = ctx.front.parse('drivers/c08_unrelated.cpp', 'TBB')
+        seen_u = set()
+        check_effects(ctx, tu_u, seen_u)
+        check_mixed_compare(ctx, tu_u, 4)
     if ctx.tier == 'thorough':
         tu2 = ctx.front.parse('drivers/c08_refcount.cpp', 'DEBUG', std='gnu++17')
         analyse(ctx, tu2, [])
